@@ -67,7 +67,8 @@ Proof. vm_compute. repeat split; reflexivity. Qed.
    T2: r2 = x.fetch_add(2); r3 = x.load().  Outcome r1 = 2, r2 = 0, r3 = 2: the RMW read
    the initial value, so its write 2 immediately follows 0 in modification order and 1
    comes after 2; T1 reading 2 after writing 1 violates coherence. RC11 (even the
-   weakest instance) forbids it; L explores it. *)
+   weakest instance) forbids it; before the repair of the RMW-atomicity rule L explored
+   it, now it does not. *)
 Require Import LV.RC11.
 Definition p_D4 : prog :=
   mkProg cfg0 [DAtomic 0]
@@ -79,12 +80,13 @@ Definition o_D4 : outcome :=
    [(0, RUnit); (1, RVal 2)];
    [(0, RVal 0); (1, RVal 2)]].
 Definition litmus_D4 : list (list instr) := tl (p_bodies p_D4).
-Lemma D4_forbidden_but_explored :
+Lemma D4_repaired :
   rc11_allows false true (fun _ => 0%N) litmus_D4 (S (rc11_enough_fuel litmus_D4))
               [[0%N; 2%N]; [0%N; 2%N]] = false /\
   rc11_allows true false (fun _ => 0%N) litmus_D4 (S (rc11_enough_fuel litmus_D4))
               [[0%N; 2%N]; [0%N; 2%N]] = false /\
-  mem_outcome o_D4 (explored p_D4 (recs_of p_D4)) = true.
+  fin_of p_D4 = RunOk /\
+  mem_outcome o_D4 (explored p_D4 (recs_of p_D4)) = false.
 Proof. vm_compute. repeat split; reflexivity. Qed.
 
 (* D2 (C02), repaired: the outcome that the fence_acq over-synchronisation used to hide
